@@ -85,7 +85,12 @@ pub fn generate(seed: u64, idx: u64) -> Scenario {
                 // or the whole text replaced by a change without range (alone, or followed by a
                 // ranged change in the same notification)
                 if rng.chance(300) {
-                    let new_text = if rng.chance(500) { gen::document(&mut rng, DocKind::Valid) } else { text.replace("int", "int ") };
+                    // (one in four re-sends the text as it is: a client re-synchronising after a save or a revert)
+                    let new_text = match rng.below(4) {
+                        0 | 1 => gen::document(&mut rng, DocKind::Valid),
+                        2 => text.replace("int", "int "),
+                        _ => text.clone(),
+                    };
                     let mut edits = vec![Edit { range: None, text: new_text.clone() }];
                     if rng.chance(400) {
                         let (r, repl) = gen::structural_edit(&mut rng, &new_text);
